@@ -45,6 +45,7 @@ struct FnDir {
     closures: HashMap<usize, String>,
     loops: HashMap<usize, String>,
     pre: String,
+    post: String,
     befores: Vec<(String, String)>,
     macros: Vec<(String, String)>,
     tpl_line: usize,
@@ -192,6 +193,7 @@ fn parse_template(path: &Path, nodes: &mut Vec<Node>) {
                         "macro" => d.macros.push(parse_subst(&rest, &sctx)),
                         "spec" => d.spec = multiline(&mut i),
                         "pre" => d.pre = multiline(&mut i),
+                        "post" => d.post = multiline(&mut i),
                         "closure" => {
                             let k: usize = rest.parse().unwrap_or_else(|_| die(&format!("{sctx}: @@closure needs ordinal")));
                             let s = multiline(&mut i);
@@ -1056,7 +1058,7 @@ fn main() {
                     ed.finish_cfg();
                     check_used(&ed, d, &ctx);
                     let body = apply_edits(&src.text, lo, hi, &ed.edits, &mut counts).unwrap_or_else(|e| die(&format!("{ctx}: {e}")));
-                    emitted = format!("{}{}\n", d.pre, body);
+                    emitted = format!("{}{}\n{}", d.pre, body, d.post);
                     src_range = (lo, hi);
                 } else {
                     // signature edits
@@ -1133,6 +1135,7 @@ fn main() {
                         s.push_str("{\n");
                         s.push_str(&d.pre);
                         s.push_str(&body);
+                        s.push_str(&d.post);
                         s.push_str("}\n");
                         s
                     };
